@@ -797,14 +797,14 @@ func (rw *rewriter) stmt(s ast.Stmt) ast.Stmt {
 	case *ast.LabeledStmt:
 		if sel, ok := x.Stmt.(*ast.SelectStmt); ok {
 			pre := rw.selectStmt(sel)
-			return &ast.BlockStmt{List: []ast.Stmt{pre, x}}
+			return &ast.BlockStmt{List: append(pre, x)}
 		}
 		x.Stmt = rw.stmt(x.Stmt)
 		return x
 
 	case *ast.SelectStmt:
 		pre := rw.selectStmt(x)
-		return &ast.BlockStmt{List: []ast.Stmt{pre, x}}
+		return &ast.BlockStmt{List: append(pre, x)}
 
 	case *ast.GoStmt:
 		return rw.goStmt(x)
@@ -1005,15 +1005,87 @@ func pureExpr(e ast.Expr) bool {
 	return false
 }
 
-func (rw *rewriter) selectStmt(s *ast.SelectStmt) ast.Stmt {
+// selectStmt hands the choice among the clauses to the scheduler and returns
+// the statements that must precede the (modified) select:
+//
+//	zzc0, zzc1 := ch1, ch2                  // channel operands, evaluated once, in source order
+//	zzi := zz_simrt.Select(site, hasDefault, zz_simrt.SendCase(zzc0), zz_simrt.RecvCase(zzc1))
+//	if zzi != -2 {                          // -2: no simulator attached, the select runs as written
+//		if zzi != 0 { zzc0 = nil }          // a nil channel is never selected: only the chosen
+//		if zzi != 1 { zzc1 = nil }          // clause (or default, for -1) can be taken
+//	}
+//	select { case zzc0 <- v: ...; case x := <-zzc1: ...; default: ... }
+func (rw *rewriter) selectStmt(s *ast.SelectStmt) []ast.Stmt {
 	sid := rw.newSite(s.Pos(), "select")
+	idx := ast.NewIdent("zzSel" + sid.Value)
+	var pre []ast.Stmt
+	var cases []ast.Expr
+	var disable []ast.Stmt
+	hasDefault := false
+	n := 0
 	for _, c := range s.Body.List {
 		cc := c.(*ast.CommClause)
-		// the communication itself stays as it is; its operands may contain calls
 		cc.Body = rw.stmts(cc.Body)
 		cc.Body = append([]ast.Stmt{stmt(call("PostSelect", sid))}, cc.Body...)
+		if cc.Comm == nil {
+			hasDefault = true
+			continue
+		}
+		tmp := ast.NewIdent(fmt.Sprintf("zzSelCh%s_%d", sid.Value, n))
+		var chExpr ast.Expr
+		send := false
+		switch cm := cc.Comm.(type) {
+		case *ast.SendStmt:
+			send = true
+			chExpr = rw.expr(cm.Chan)
+			cm.Chan = tmp
+			cm.Value = rw.expr(cm.Value)
+		case *ast.ExprStmt:
+			if u, ok := unparen(cm.X).(*ast.UnaryExpr); ok && u.Op == token.ARROW {
+				chExpr = rw.expr(u.X)
+				u.X = tmp
+			}
+		case *ast.AssignStmt:
+			if len(cm.Rhs) == 1 {
+				if u, ok := unparen(cm.Rhs[0]).(*ast.UnaryExpr); ok && u.Op == token.ARROW {
+					chExpr = rw.expr(u.X)
+					u.X = tmp
+				}
+			}
+			for i := range cm.Lhs {
+				cm.Lhs[i] = rw.expr(cm.Lhs[i])
+			}
+		}
+		if chExpr == nil {
+			fatal("%s: select clause of unknown shape", rw.fset.Position(cc.Pos()))
+		}
+		pre = append(pre, &ast.AssignStmt{Lhs: []ast.Expr{tmp}, Tok: token.DEFINE, Rhs: []ast.Expr{chExpr}})
+		ctor := "RecvCase"
+		if send {
+			ctor = "SendCase"
+		}
+		cases = append(cases, call(ctor, tmp))
+		disable = append(disable, &ast.IfStmt{
+			Cond: &ast.BinaryExpr{X: idx, Op: token.NEQ, Y: &ast.BasicLit{Kind: token.INT, Value: strconv.Itoa(n)}},
+			Body: &ast.BlockStmt{List: []ast.Stmt{&ast.AssignStmt{Lhs: []ast.Expr{tmp}, Tok: token.ASSIGN, Rhs: []ast.Expr{ast.NewIdent("nil")}}}},
+		})
+		n++
 	}
-	return stmt(call("PreSelect", sid))
+	deflt := ast.NewIdent("false")
+	if hasDefault {
+		deflt = ast.NewIdent("true")
+	}
+	args := append([]ast.Expr{sid, deflt}, cases...)
+	pre = append(pre, &ast.AssignStmt{Lhs: []ast.Expr{idx}, Tok: token.DEFINE, Rhs: []ast.Expr{call("Select", args...)}})
+	if len(disable) > 0 {
+		pre = append(pre, &ast.IfStmt{
+			Cond: &ast.BinaryExpr{X: idx, Op: token.NEQ, Y: &ast.UnaryExpr{Op: token.SUB, X: &ast.BasicLit{Kind: token.INT, Value: "2"}}},
+			Body: &ast.BlockStmt{List: disable},
+		})
+	} else {
+		pre = append(pre, &ast.AssignStmt{Lhs: []ast.Expr{ast.NewIdent("_")}, Tok: token.ASSIGN, Rhs: []ast.Expr{idx}})
+	}
+	return pre
 }
 
 func (rw *rewriter) goStmt(g *ast.GoStmt) ast.Stmt {
